@@ -593,7 +593,8 @@ class BGMM(GMM):
             scatter = np.dot(dx.T, dx)
 
             # bias
-            addcov = np.dot(dm.T, dm) * self.prior_shrinkage[k]
+            addcov = np.dot(dm.T, dm) * (self.prior_shrinkage[k] * pop[k]
+                                         / (self.prior_shrinkage[k] + pop[k]))
 
             # covariance = prior term + scatter + bias
             covariance = self._inv_prior_scale[k] + scatter + addcov
@@ -785,7 +786,8 @@ class BGMM(GMM):
             #1. the precisions
             dx = np.reshape(x[z == k] - empmeans, (pop[k], self.dim))
             dm = np.reshape(empmeans - self.prior_means[k], (1, self.dim))
-            addcov = np.dot(dm.T, dm) * self.prior_shrinkage[k]
+            addcov = np.dot(dm.T, dm) * (self.prior_shrinkage[k] * pop[k]
+                                         / (self.prior_shrinkage[k] + pop[k]))
 
             covariance = self._inv_prior_scale[k] + np.dot(dx.T, dx) + addcov
             scale = inv(covariance)
